@@ -141,6 +141,14 @@ static void check_dataset(void)
     ctx = "dataset";
     struct cmb_dataset ds;
     cmb_dataset_initialize(&ds);
+    if (n % 2 == 0) {
+        /* half of the inputs meet an object that has had an earlier life (other data, sorted) and was reset */
+        for (int i = 0; i < 7; i++) {
+            cmb_dataset_add(&ds, 100.0 - 13.0 * i);
+        }
+        cmb_dataset_sort(&ds);
+        cmb_dataset_reset(&ds);
+    }
     double lo = DBL_MAX, hi = -DBL_MAX;
     for (int i = 0; i < n; i++) {
         cmb_dataset_add(&ds, xs[i]);
@@ -328,6 +336,13 @@ static void check_timeseries(void)
     ctx = "timeseries";
     struct cmb_timeseries ts;
     cmb_timeseries_initialize(&ts);
+    if (n % 2 == 0) {
+        for (int i = 0; i < 7; i++) {
+            cmb_timeseries_add(&ts, 100.0 - 13.0 * i, 2.0 * i);
+        }
+        cmb_timeseries_sort_x(&ts);
+        cmb_timeseries_reset(&ts);
+    }
     static struct trip ref[MAXN], got[MAXN];
     double t = 0, lo = DBL_MAX, hi = -DBL_MAX, wtot = 0;
     for (int i = 0; i < n; i++) {
@@ -497,6 +512,17 @@ static void check_timeseries(void)
             free(buf);
             if (!ok) {
                 goto out;
+            }
+            /* ... and its histogram still accounts for the full weight of every sample */
+            if (hi > lo) {
+                cmb_timeseries_histogram_print(&ts, devnull, 3, lo, hi);
+                struct cmi_dataset_histogram *hp = cmi_dataset_histogram_create(3, lo, hi);
+                timeseries_histogram_fill(hp, (uint64_t)n, ts.ds.xa, ts.wa);
+                check_hist(hp, wtot, "timeseries-after-sort-x");
+                cmi_dataset_histogram_destroy(hp);
+                if (vx_violations_this_exec()) {
+                    goto out;
+                }
             }
         }
         cmb_timeseries_sort_t(&ts);
